@@ -12,8 +12,15 @@ from typing import Any, Dict, List, Optional
 from .frontend import AnalysisError, Program
 
 VERIF = os.path.dirname(os.path.dirname(os.path.abspath(__file__)))
-EVIDENCE_DIR = os.path.join(VERIF, "evidence")
-REPLAY_DIR = os.path.join(VERIF, "replay")
+if os.environ.get("SA_NO_EVIDENCE"):
+    # self-tests and seed runs on scratch copies must not touch the committed evidence
+    import tempfile as _tf
+    _scratch = _tf.mkdtemp(prefix="sa_scratch_")
+    EVIDENCE_DIR = os.path.join(_scratch, "evidence")
+    REPLAY_DIR = os.path.join(_scratch, "replay")
+else:
+    EVIDENCE_DIR = os.path.join(VERIF, "evidence")
+    REPLAY_DIR = os.path.join(VERIF, "replay")
 KNOWN_FILE = os.path.join(VERIF, "KNOWN_FINDINGS.txt")
 
 
